@@ -195,6 +195,7 @@ type c08Inc struct {
 	stamp    time.Time
 	hasStamp bool
 	lastRPos string
+	wmSent   int64 // the highest watermark this incarnation's source has sent to its receiver (accepted by Recv)
 	// facts for the monitor (step numbers; 0 = has not happened)
 	openFailed     bool
 	tSet, tAdd     int   // SetRemoteSendChan / addLocalShard ran
@@ -656,7 +657,10 @@ func (w *c08World) exec(op string) string {
 		if k := n(1); k < len(w.incs) && w.incs[k].cli != nil {
 			synctest.Wait()
 			select {
-			case w.incs[k].cli.in <- ev[repResp]{v: msgResp(int64(n(2)))}:
+			case w.incs[k].cli.in <- ev[repResp]{v: msgRespFrom(k, int64(n(2)))}: // tagged with the incarnation (Priority travels with the message)
+				if int64(n(2)) > w.incs[k].wmSent {
+					w.incs[k].wmSent = int64(n(2))
+				}
 			default: // the receiver is not reading any more
 			}
 		}
@@ -672,6 +676,27 @@ func (w *c08World) exec(op string) string {
 			select {
 			case w.incs[k].srv.in <- ev[repReq]{v: ackReq(wv)}:
 			default:
+			}
+		}
+	case "selfend": // receiver k ends on its own: its Send to the source cluster fails while it forwards an acknowledgement
+		// (model: Act.selfEnd k). The acknowledgement is handed to the receiver's registered channel directly.
+		if k := n(1); k < len(w.incs) && w.incs[k].cli != nil {
+			in := w.incs[k]
+			var ch chan proxy.RoutedAck
+			for c, owner := range w.ackOwner { // the receiver's own channel, whether or not it is (still) the registered one
+				if owner == k {
+					ch = c
+				}
+			}
+			if ch != nil && !in.returned && in.tReg != 0 { // only a receiver that has finished its start-up forwards acknowledgements
+				in.cli.mu.Lock()
+				in.cli.sendErr = errors.New("c08: injected send failure (source gone)")
+				in.cli.mu.Unlock()
+				synctest.Wait()
+				select {
+				case ch <- proxy.RoutedAck{TargetShard: history.ClusterShardID{ClusterID: 3 - in.csid.ClusterID, ShardID: 1}, Req: ackReq(5)}:
+				default:
+				}
 			}
 		}
 	case "sendfail": // from now on the Send of receiver k's stream to its source cluster fails (the source went away without a reset)
@@ -799,6 +824,31 @@ func (w *c08World) observe(final bool) string {
 					extra = w.attribute(reg, got, nil)
 				}
 				w.violation(what, extra)
+			}
+			// watermark replay: the pending watermark of every live, registered receiver of the OTHER cluster has reached the
+			// newest live stream of this shard (broadcast if that stream was registered when the watermark came, replay if it
+			// registered later) — checked when this shard's and that receiver's registrations are both in order
+			if liveS >= 0 && v.S == liveS && v.L == liveS && !w.incs[liveS].broken {
+				for _, rc := range w.shards {
+					if rc/100 == c/100 {
+						continue
+					}
+					rv := views[rc]
+					if rv.R < 0 || rv.R >= len(w.incs) {
+						continue
+					}
+					ri := w.incs[rv.R]
+					if ri.returned || ri.broken || ri.wmSent == 0 || ri.tReg == 0 || rv.A != rv.R || !rv.C {
+						continue
+					}
+					got := false
+					for _, m := range w.incs[liveS].srv.Sent() {
+						got = got || int(m.GetMessages().GetPriority())-100 == ri.id
+					}
+					if !got {
+						w.violation(fmt.Sprintf("shard %d: the newest live stream (incarnation %d) never received the pending watermark %d of the live receiver %d (shard %d): neither the broadcast nor the replay to a newly registered shard reached it", c, liveS, ri.wmSent, ri.id, rc), w.attribute("remoteSendChannels", liveS, nil))
+					}
+				}
 			}
 			chk("localShards", v.L, liveS)
 			chk("remoteSendChannels", v.S, liveS)
